@@ -89,7 +89,7 @@ func writeEvidence(p *Prop, tier string, seed uint64, results []*subResult, viol
 			"simulated_time_s":       float64(simNs) / 1e9,
 			"distinct_executions":    distinct,
 			"nontrivial_runs":        nontriv,
-			"runs_step_capped": capped,
+			"runs_step_capped":       capped,
 			"runs_with_leaked_tasks": leaked,
 			"failed_runs":            failed,
 			"faults_injected":        faults,
